@@ -66,8 +66,19 @@ Section Front.
 End Front.
 
 (* the instance that is run against the implementation (file system as data):
-   the reports as (primary file ids) in order, and the user-input ids *)
-Definition front_run (d : Includes.fs_data) (argv libs : list Includes.spath)
-    : outcome (list (list Z) * list Z) :=
+   the parse-stage reports of the project handed to the runner when no other
+   stage contributes — [p_parse (front_project pf_id pf_name _ s [] [])] — each
+   as (category as `Display` prints it, code id, code name, primary file ids)
+   in order, and the user-input ids [p_user].  [pf_id]/[pf_name] are given by
+   the caller (the check passes the numbers it interns
+   `ReportCode::ParseFail.id()` / `.name()` of the current tree to); that every
+   report of the stage has error level and that one code is what [report_of]
+   says and what the comparison with the real `Report`s tests. *)
+Definition report_view (r : report) : String.string * Z * Z * list Z :=
+  (Category.display (r_level r), r_id r, r_name r, r_pfiles r).
+
+Definition front_run (pf_id pf_name : Z) (d : Includes.fs_data) (argv libs : list Includes.spath)
+    : outcome (list (String.string * Z * Z * list Z) * list Z) :=
   Base.bind (Includes.run_project false d argv libs)
-            (fun s => Ok (map primary_files (Includes.ps_reports s), user_ids s)).
+            (fun s => let p := front_project pf_id pf_name (fun _ => 0%Z) s [] [] in
+                      Ok (map report_view (p_parse p), p_user p)).
